@@ -64,7 +64,7 @@ fn gen_action(r: &mut Rng, present: bool, cur: &Option<String>, bad_pct: usize, 
 
 struct DCfg { bad_pct: usize, touch_pct: usize, extra_pct: usize }
 
-fn fresh_doc(r: &mut Rng) -> String { (*r.pick(&["new doc", "other", "line1\nline2", "x\\y", " d", "q"])).to_owned() }
+fn fresh_doc(r: &mut Rng) -> String { (*r.pick(&["new doc", "other", "line1\nline2", "x\\y", " d", "q", "a\\nb", "tab\there", "cr\r", "\\", "\\\\t", "end\\"])).to_owned() }
 
 /// a diff aimed at target `t`, namespace index `ns`
 fn gen_diff_for(r: &mut Rng, t: &GMappings, ns: usize, dc: &DCfg, cfg: &MapCfg, st: &mut Out) -> GDiff {
@@ -413,7 +413,8 @@ fn gen(r: &mut Rng, tier: Tier, out: &mut Out) {
 		"tiny\t2\t0\nc\tA\tX\tX\n\tc\n\tc\n", "tiny\t2\t0\nc\tA\n\tc\ta\\nb\tc\\\\nd\n", "tiny\t2\t0\nc\tA\n\t\tc\tx\n", "tiny\t2\t0\n\tc\tx\n",
 		"tiny\t2\t0\nc\tA\n\tf\tI\n", "tiny\t2\t0\nc\tA\n\tf\t\tx\n\tm\t\t<init>\n\tm\t\t<x>\n", "tiny\t2\t0\nc\tA\n\tm\t()V\tm\n\t\tp\t0\n",
 		"tiny\t2\t0\nc\tA\n\tm\t()V\tm\n\t\tp\t0\t\n\t\t\tc\td\n\t\t\t\tc\td\n", "tiny\t2\t0\nc\tA\n\tf\tI\tf\n\t\tp\t0\t\tq\n\t\t\tc\n",
-		"tiny\t2\t0\nc\t[A\n", "tiny\t2\t0\nc\ta//b\n", "tiny\t2\t0\nc\tA\t[X\n", "tiny\t2\t0\nx\n\ty\n", "tiny\t2\t0\nc\tA\nc\tA\n", "tiny\t2\t0\nc\tA\n\tc\t\tx\ty\n"] {
+		"tiny\t2\t0\nc\t[A\n", "tiny\t2\t0\nc\ta//b\n", "tiny\t2\t0\nc\tA\t[X\n", "tiny\t2\t0\nx\n\ty\n", "tiny\t2\t0\nc\tA\nc\tA\n", "tiny\t2\t0\nc\tA\n\tc\t\tx\ty\n",
+		"tiny\t2\t0\nc\tA\n\tc\t\ta\\rb\\tc\\\\n\\\\\\nd\\\n", "tiny\t2\t0\nc\tA\n\tc\tx\\\tx\\\\\n", "tiny\t2\t0\nc\tA\n\tc\t\\q\\\t\n", "tiny\t2\t0\nc\tA\n\tc\t\\\\\t\\\n"] {
 		out.stats.hit("text-literal");
 		out.op("tdiff-read", &[Sexp::str(s)]);
 	}
@@ -516,6 +517,8 @@ fn spec_map(lv: Lv, diffs: &[Sexp], targets: &[Sexp], ns: usize, n: usize) -> Re
 	for (key, d) in &dmap {
 		if seen.contains(key) { continue; }
 		let Act::Add(b) = act(&d[k]) else { return Err(()) };
+		// the first namespace is kept in sync with the keys: nothing is ever added there
+		if ns == 0 { return Err(()); }
 		// created from the key
 		let mut t: Vec<Sexp> = d[..k].to_vec();
 		let mut names = vec![none(); n];
@@ -582,7 +585,7 @@ fn cps(s: &Sexp) -> Vec<u32> { s.as_cps().unwrap_or_default() }
 /// a Unicode scalar value (the text goes through a UTF-8 file)
 fn scalar(c: u32) -> bool { c < 0xD800 || (0xDFFF < c && c < 0x110000) }
 fn plain_cell(s: &[u32]) -> bool { s.iter().all(|c| ![9, 10, 13].contains(c) && scalar(*c)) }
-fn plain_doc(s: &[u32]) -> bool { !s.is_empty() && s.iter().all(|c| ![9, 13].contains(c) && scalar(*c)) && !s.windows(2).any(|w| w == [92, 110]) }
+fn plain_doc(s: &[u32]) -> bool { !s.is_empty() && s.iter().all(|c| scalar(*c)) }
 fn valid_unq(s: &[u32]) -> bool { !s.is_empty() && s.iter().all(|c| !['.' as u32, ';' as u32, '[' as u32, '/' as u32].contains(c)) }
 fn valid_method(s: &[u32]) -> bool {
 	let is = |t: &str| s.iter().copied().eq(t.chars().map(|c| c as u32));
@@ -693,9 +696,6 @@ fn exec(op: &str, args: &[Sexp]) -> Ans {
 		}
 		("oracle-apply-wf" | "oracle-apply-wf-full", [d, t, ns]) => {
 			if !diff_keys_unique(d) || !wf(t) { return Ans::out_of_domain(); }
-			if op == "oracle-apply-wf" {
-				match items(&items(t)[0]).iter().position(|x| x == ns) { None | Some(0) => return Ans::out_of_domain(), _ => {} }
-			}
 			let nss = tr!(ns.as_string());
 			let Ok(r) = tr!(apply_real(d, t, &nss)) else { return Ans::out_of_domain() };
 			if wf(&r) { Ans::pass() } else { Ans::fail("not_wf") }
